@@ -61,6 +61,7 @@ GEN = "abcdefg"
 AMB = "ACGTRYWSMKHBVDN"
 PROT20 = "ACDEFGHIKLMNPQRSTVWY"
 GAPCHARS = "._*~"
+BAM = {"M": 0, "I": 1, "D": 2, "N": 3, "S": 4, "H": 5, "P": 6, "=": 7, "X": 8, "B": 9}     # SAM/BAM specification, op codes
 
 
 # ---------------------------------------------------------------- translator (Gen)
@@ -249,11 +250,11 @@ def _rand_seq(rng, alph, n):
     return "".join(rng.choice(alph) for _ in range(n))
 
 
-def _matrix_text(rng, k):
-    m = [[0] * k for _ in range(k)]
-    for i in range(k):
-        for j in range(i, k):
-            m[i][j] = m[j][i] = rng.randint(-4, 6) if i != j else rng.randint(1, 9)
+def _matrix_text(rng, k, k2=None):
+    """substitution matrix rows; NOT symmetric (score() must look up matrix[code of the earlier row, code of the later row]),
+    k x k2 for two different alphabets"""
+    k2 = k if k2 is None else k2
+    m = [[rng.randint(-4, 6) if i != j else rng.randint(1, 9) for j in range(k2)] for i in range(k)]
     return ";".join(",".join(str(x) for x in row) for row in m)
 
 
@@ -565,6 +566,8 @@ def mixed_cases(rng, n_cases):
             strs.append("".join(rng.choice(a[-6:] if rng.random() < 0.6 else a) for _ in range(ln)))
         ops = [f"setm {'|'.join(alphs)} {_seqs(strs)} {_tr(cols)}", "symbols", "strings", "codes"]
         ops += rng.sample(["ident all", "ident nt", "ident short", "pident all", "rmgaps", "termgaps", "rmterm"], 3)
+        if n == 2 and len(alphs[0]) != len(alphs[1]):
+            ops.append(f"score {_matrix_text(rng, len(alphs[0]), len(alphs[1]))} {rng.randint(-9, 0)} {rng.randint(-5, 0)} {rng.choice('01')}")
         yield {"kind": "trace/mixed", "ops": ops, "alph": alphs[0], "alphs": alphs, "seqs": strs, "trace": cols, "style": style, "valid": True}
 
 
@@ -677,8 +680,23 @@ def badtree_cases(rng, n_cases):
                "mseed": rng.randint(0, 10 ** 6), "badtree": how}
 
 
+def fastareuse_cases(rng, n_cases):
+    """set_alignment() twice (or three times) into the SAME FastaFile under the same names, with alignments whose rows wrap
+    into different numbers of lines; then get_alignment() in memory and after write/read"""
+    for _ in range(n_cases):
+        n = rng.choice([2, 3, 4])
+        alph = rng.choice([NUC, PROT20])
+        alis = []
+        for _ in range(rng.choice([2, 2, 3])):
+            ncol = rng.choice([1, 10, 50, 79, 80, 81, 159, 160, 161, 200, 250])
+            cols, lens, _ = _rand_trace(rng, n, "global", ncol=ncol)
+            alis.append({"seqs": [_rand_seq(rng, alph, ln) for ln in lens], "trace": cols})
+        yield {"kind": "fastareuse", "alph": alph, "alis": alis, "rename_last": rng.random() < 0.3}
+
+
 def cases(rng, tier):
     q = tier == "quick"
+    yield from fastareuse_cases(rng, 60 if q else 800)
     yield from history_cases(rng, 120 if q else 2500)
     yield from spell_cases(rng, 60 if q else 1000)
     yield from tree_cases(rng, 60 if q else 1000)
@@ -924,7 +942,8 @@ def run_impl(case):
                 import biotite.sequence as seq
                 rows = [[int(x) for x in r.split(",")] for r in w[1].split(";")]
                 a = ali.sequences[0].get_alphabet() if ali.sequences else seq.Alphabet(list(alph))
-                mat = align.SubstitutionMatrix(a, a, np.array(rows, dtype=np.int32))
+                a2 = ali.sequences[1].get_alphabet() if len(ali.sequences) == 2 and len(rows[0]) != len(rows) else a
+                mat = align.SubstitutionMatrix(a, a2, np.array(rows, dtype=np.int32))
                 return "ok %d" % int(align.score(ali, mat, (int(w[2]), int(w[3])), w[4] == "1"))
             out.append(_fmt(f_score))
         elif w[0] in ("cigar_w", "cigar_t", "cigar_rt"):
@@ -1231,6 +1250,8 @@ def oracle(case):
         return _oracle_big(case)
     if kind == "fastagaps":
         return _oracle_gapchars(case)
+    if kind == "fastareuse":
+        return _oracle_fastareuse(case)
     if kind == "history":
         return _oracle_history(case)
     if kind == "spell":
@@ -1368,6 +1389,15 @@ def _oracle_cigar_read(case):
             t = align.read_alignment_from_cigar(cig, int(w[2]), ref, ref).trace.tolist()
         except Exception:
             continue
+        toks = re.findall(r"(\d+)([MIDNSHP=XB])", cig)
+        if "".join(a + b for a, b in toks) == cig and toks:
+            codes = [(BAM[b], int(a)) for a, b in toks]
+            try:
+                t2 = align.read_alignment_from_cigar(codes, int(w[2]), ref, ref).trace.tolist()
+            except Exception as e:  # noqa: BLE001
+                t2 = type(e).__name__
+            if t2 != t:
+                v.append(("C11/cigar/read/bam-op-codes", f"{cig!r} at {w[2]} -> {t}, but as BAM (op code, length) tuples {codes} -> {t2}"))
         if not _is_valid(t, 2) and t:
             v.append(("C11/cigar/read/invalid-trace", f"{cig!r} at {w[2]} -> {t}"))
         elif t and not re.search(r"[SH]", re.sub(r"^(\d+H)?(\d+S)?|(\d+S)?(\d+H)?$", "", cig)) and not (_contig(t, 0) and _contig(t, 1)):
@@ -1523,7 +1553,8 @@ def _oracle_trace(case):
         rows = [[int(x) for x in r.split(",")] for r in w[1].split(";")]
         go, ge, tp = int(w[2]), int(w[3]), w[4] == "1"
         a0 = ali.sequences[0].get_alphabet()
-        mat = align.SubstitutionMatrix(a0, a0, np.array(rows, dtype=np.int32))
+        a1 = ali.sequences[1].get_alphabet() if n == 2 and len(rows[0]) != len(rows) else a0
+        mat = align.SubstitutionMatrix(a0, a1, np.array(rows, dtype=np.int32))
         exp = 0
         for i in range(ncol):
             for a in range(n):
@@ -1539,7 +1570,11 @@ def _oracle_trace(case):
                     run += 1
                 else:
                     run = 0
-        got = align.score(ali, mat, (go, ge), tp)
+        try:
+            got = align.score(ali, mat, (go, ge), tp)
+        except Exception as e:  # noqa: BLE001
+            v.append(("C11/helpers/score/rejected", f"{cols} {strs} matrix {len(rows)}x{len(rows[0])}: {type(e).__name__}: {e}"))
+            continue
         if int(got) != exp:
             v.append(("C11/helpers/score", f"{cols} {strs} gap=({go},{ge}) tp={tp} -> {got}, expected {exp}"))
     # --- CIGAR: every option combination on every (reference, segment) pair that is a pairwise trace
@@ -1593,8 +1628,8 @@ def _oracle_cigar(case, ali, ri, si, pair, strs):
             continue
         if any(x[1] == y[1] for x, y in zip(toks, toks[1:])):
             v.append((f"C11/cigar/write/not-aggregated/{tag}", f"{pair} -> {cig!r}"))
-        if [(align.CigarOp.from_cigar_symbol(b), int(a)) for a, b in toks] != [(align.CigarOp(int(o)), int(c)) for o, c in tup]:
-            v.append((f"C11/cigar/write/string-vs-tuples/{tag}", f"{pair} -> {cig!r} vs {[(int(o), int(c)) for o, c in tup]}"))
+        if [(BAM[b], int(a)) for a, b in toks] != [(int(o), int(c)) for o, c in tup]:
+            v.append((f"C11/cigar/write/bam-op-codes/{tag}", f"{pair} -> {cig!r} but as BAM (op code, length) tuples {[(int(o), int(c)) for o, c in tup]}"))
         letters = {b for _, b in toks}
         if (dm and "M" in letters) or (not dm and letters & {"=", "X"}) or (not introns and "N" in letters) or \
                 (letters & ({"S"} if hc else {"H"})) or letters & {"P", "B"}:
@@ -1626,7 +1661,7 @@ def _oracle_cigar(case, ali, ri, si, pair, strs):
             seg = seg[start_clip: len(seg) - end_clip]
             shift = start_clip
         expected = [[c[0], c[1] - shift if c[1] >= 0 else -1] for c in written]
-        for form, src in (("string", cig), ("tuples", tup)):
+        for form, src in (("string", cig), ("tuples", tup), ("bam-codes", [(BAM[b], int(a)) for a, b in toks])):
             try:
                 back = align.read_alignment_from_cigar(src, pos, ali.sequences[ri], seg)
             except Exception as e:  # noqa: BLE001
@@ -1685,8 +1720,8 @@ def _battery(ali, seed):
     k = len(a0)
     m = np.zeros((k, k), dtype=np.int32)
     for i in range(k):
-        for j in range(i, k):
-            m[i, j] = m[j, i] = r.randint(-4, 6)
+        for j in range(k):
+            m[i, j] = r.randint(-4, 6)          # not symmetric
     matrix = align.SubstitutionMatrix(a0, a0, m)
 
     def fasta_text():
@@ -1773,6 +1808,62 @@ def _fresh(ali):
     """a new Alignment with copies of the same content"""
     from biotite.sequence.align import Alignment
     return Alignment([s.copy() for s in ali.sequences], ali.trace.copy(), ali.score)
+
+
+def _oracle_fastareuse(case):
+    """a FastaFile that already holds an alignment under the same names gives, after set_alignment(), exactly what a fresh
+    FastaFile gives: in memory, and after writing and reading the file"""
+    import io
+    import warnings
+
+    import biotite.sequence as seq
+    import biotite.sequence.io.fasta as fasta
+    alph = NUC if case["alph"] == NUC else PROT
+    stype = seq.NucleotideSequence if case["alph"] == NUC else seq.ProteinSequence
+    n = len(case["alis"][0]["seqs"])
+    names = [f"row{i}" for i in range(n)]
+
+    def read(ff):
+        with warnings.catch_warnings():
+            warnings.simplefilter("ignore")
+            a = fasta.get_alignment(ff, seq_type=stype)
+        return ([str(x) for x in a.sequences], a.trace.tolist())
+
+    def through_text(ff):
+        buf = io.StringIO()
+        ff.write(buf)
+        buf.seek(0)
+        return fasta.FastaFile.read(buf)
+    reused = fasta.FastaFile()
+    v = []
+    for step, a in enumerate(case["alis"]):
+        ali = _mkali(alph, a["seqs"], a["trace"])
+        fresh = fasta.FastaFile()
+        fasta.set_alignment(fresh, ali, names)
+        want = read(fresh)
+        hist = f"alignments with {[len(x['trace']) for x in case['alis'][:step + 1]]} columns written one after the other under the names {names}"
+        try:
+            fasta.set_alignment(reused, ali, names)
+            got = read(reused)
+            got_text = read(through_text(reused))
+            keys = list(reused.keys())
+        except Exception as e:  # noqa: BLE001
+            v.append(("C11/fasta/reused-file/rejected", f"{hist}: {type(e).__name__}: {e}"))
+            break
+        if keys != names:
+            v.append(("C11/fasta/reused-file/headers", f"{hist}: headers {keys}"))
+            break
+        if got != want:
+            v.append(("C11/fasta/reused-file/in-memory", f"{hist}: get_alignment on the reused FastaFile gives {str(got)[:200]}, a fresh FastaFile gives {str(want)[:200]}"))
+            break
+        if got_text != want:
+            v.append(("C11/fasta/reused-file/after-write-read", f"{hist}: after write/read the reused FastaFile gives {str(got_text)[:200]}, a fresh one {str(want)[:200]}"))
+            break
+        expect = ([("".join(a["seqs"][k][j] for j in [c[k] for c in a["trace"] if c[k] >= 0])) for k in range(n)], _renumber(a["trace"]))
+        if want != expect:
+            v.append(("C11/fasta/roundtrip", f"{hist}: fresh FastaFile gives {str(want)[:200]}, expected {str(expect)[:200]}"))
+            break
+    return v
 
 
 def _oracle_history(case):
